@@ -5,7 +5,7 @@ NOTES = ("Static analysis only: every verdict is computed from the source text o
          "Exit 0 holds / 1 VIOLATION / 2 ANALYSIS-ERROR (anchor vanished or idiom not recognised; never reported as a violation). "
          "Known findings are listed in /verif/known_findings.json. "
          "Rules are stated over values and paths (effect rows with Herbrand terms, recorded decisions, value identity), with private helpers "
-         "interpreted in place and call spellings canonicalised; 240 independently written behaviour-preserving patches are kept as "
+         "interpreted in place and call spellings canonicalised; 300 independently written behaviour-preserving patches (240 small, 60 substantial) are kept as "
          "must-stay-silent variants and independently seeded breaking changes as must-fire variants (python -m sa.selftest).")
 
 _TRUST = ("Trusted base: CPython's ast module and the checker code under /verif/sa; CPython, queue, threading, OpenSSL and "
@@ -60,9 +60,9 @@ CLAIMS = {
                  "own counter (when not None), returns the new object after testing it for exhaustion; a read error is re-raised unless "
                  "read is not False, method known and allowed (both directions); ProtocolError/ReadTimeoutError select the gated read "
                  "branch, consulted before `other`; default allow-list is idempotent; Retry-After honoured only under "
-                 "respect_retry_after_header and a response. Declined: counter arithmetic (< vs <=, exact attempt counts)."
+                 "respect_retry_after_header and a response, and (C04-R12) the slept Retry-After must be gated on the statuses it is honoured for - which the tree does not do (F17, known). Declined: counter arithmetic (< vs <=, exact attempt counts)."
                  " Every low-level failure that can follow the sending of request bytes reaches increment(error=...) as a class the policy gates as a read error, or as ProxyError on the proxy arm (C04-R13)."),
-        "note": _TRUST + "F11 (proxy classification reads state reset by close()) is a known finding; error->category mapping for SSLError after send follows upstream ('other').",
+        "note": _TRUST + "F11 (proxy classification reads state reset by close()) and F17 (Retry-After slept for any retried status) are known findings; error->category mapping for SSLError after send follows upstream ('other').",
         "technique": "static analysis: provenance tags through abstract interpretation of the request drivers, decision-table extraction on Retry.is_retry/increment, min/max shape algebra, write-set queries",
     },
     "C05": {
@@ -172,7 +172,7 @@ CLAIMS = {
                  "decompressobj is never fed when it may be at eof and a gzip decoder starts a new decompressobj before feeding "
                  "unused_data; MultiDecoder undoes codings in reverse header order and flushes the decoder applied last; each optional "
                  "codec is advertised, constructed and error-mapped under one guard; flush_decoder is true exactly for read-all or a "
-                 "sized read that returned no data; stream() loops until the stdlib response is closed and the queue is empty; "
+                 "sized read that returned no data - decided for every decode call of read, including the refill reads of one call: bytes that may be empty are never decoded under a definitely-false flag (C12-R6; found F19, repaired); stream() loops until the stdlib response is closed and the queue is empty; "
                  "readinto/iteration/.data go through the same readers. Declined (most of the statement): equality of concatenations over "
                  "arbitrary call sequences, the read(n) size contract, segmentation independence."
                  " A sized take from the decoded-byte queue always follows a put or a size test (C12-R10); the raw reader never closes the stdlib response early with a piece in hand (C13-R1, shared)."),
@@ -189,9 +189,9 @@ CLAIMS = {
                  "DecodeError, an incomplete zstd frame raises at flush, only trailing gzip garbage after a full member is ignored; "
                  "conflicting Content-Length raises InvalidHeader (not a ValueError), chunked ignores length; unclean exits close the "
                  "connection (shared C01-R5/R6); preload and .data use read(); enforce_content_length defaults to True and is forwarded "
-                 "at every hop. Declined: enumeration over every cut position."
+                 "at every hop; the flush flag of every decode in read(amt) belongs to the bytes it accompanies (C12-R6 shared: F19, repaired). Declined: enumeration over every cut position."
                  " The raw reader itself never ends a good body early, and an early release never recycles the connection of an unfinished body (C03-R8, shared)."),
-        "note": _TRUST + "http.client's _safe_read raising IncompleteRead is read from its source. F12 (read1 without amount) was repaired.",
+        "note": _TRUST + "http.client's _safe_read raising IncompleteRead is read from its source. F12 (read1 without amount) and F19 (refill read never flushed the decoder) were repaired in /repo.",
         "technique": "static analysis: decision-table extraction on _raw_read, exceptional-path typestate on the chunk parser, handler/lattice queries",
     },
     "C14": {
@@ -203,9 +203,9 @@ CLAIMS = {
                  "http/https is lower-cased or guarded by a digits-and-dots pattern, schemes lowered in parse_url and Url(); the port "
                  "reaches the result only after the 0..65535 test and its group admits at most five significant digits; none of the 13 "
                  "compiled patterns has a super-linear backtracking shape; loops over the input contain no quadratic idiom. "
-                 "What the patterns accept as a percent-escape is '%' plus two ASCII hex digits (C14-R8). "
+                 "What the patterns accept as a percent-escape is '%' plus two ASCII hex digits (C14-R8); a '%' that is re-encoded must have been examined at its own position (C14-R9: the tree decides on the whole component only - F18, known). "
                  "Declined: idempotence/re-parse equality, percent-encoding normal form, agreement with a reference parser on every string."),
-        "note": _TRUST + "TypeError raised by to_str on non-str input is outside the quantifier (strings).",
+        "note": _TRUST + "TypeError raised by to_str on non-str input is outside the quantifier (strings). F18 (a valid escape next to a stray '%' is encoded again) is a known finding.",
         "technique": "static analysis: regex structure and backtracking-shape analysis on folded patterns, exception-funnel check over the call closure, must-pass-through def-use",
     },
     "C15": {
@@ -214,8 +214,8 @@ CLAIMS = {
                  "Url.request_uri reads only path and query ('/' when empty) and the absolute-form target drops auth and fragment; the "
                  "dialled name is _dns_host while Host/SNI use it without trailing dot; the TLS server name loses brackets/zone id only for "
                  "IP literals; the pool's host is bracket-stripped while CONNECT keeps brackets; scheme/host are lower-cased by parser and "
-                 "key normaliser. Declined: byte-identical requests; the Host line itself (http.client)."),
-        "note": _TRUST + "F10 (userinfo and fragment in the absolute-form target) was repaired in /repo.",
+                 "key normaliser; through a forwarding proxy the request carries the Host derived from its own URL and that derived Host cannot ride along to the request for another URL (C15-R8: it can - F16, known). Declined: byte-identical requests; the Host line http.client writes by itself."),
+        "note": _TRUST + "F10 (userinfo and fragment in the absolute-form target) was repaired in /repo; F16 (stale Host after a redirect through a forwarding proxy) is a known finding.",
         "technique": "static analysis: provenance tags through abstract interpretation of the drivers, read-set of Url views, def-use queries",
     },
     "C16": {
